@@ -49,7 +49,8 @@ Clause(e) ==
      ELSE IF prevDue /\ Deliverable(a) /\ Deliverable(b) /\ ~D THEN "PromptAfterUnmask"
      ELSE IF a.pw = "halt" /\ And4(a.isr, 15) = 0 /\ And4(b.isr, 15) = 0 /\ b.pw = "halt" /\ ~(b.pc = a.pc /\ b.instr = a.instr /\ b.f = a.f /\ b.s = a.s /\ b.imr = a.imr) THEN "HaltExecutesNothing"
      ELSE IF a.pw = "halt" /\ And4(a.isr, 15) # 0 /\ b.pw = "halt" /\ ~execd THEN "HaltWakesOnStatus"
-     ELSE IF a.pw = "halt" /\ a.isr = 0 /\ Quiet(a) /\ b.pw # "halt" THEN "HaltOnlyWakesOnStatus"
+     \* (a matrix key debounced by this step's keyboard scan raises KEYI during the step: then b.isr shows it)
+     ELSE IF a.pw = "halt" /\ a.isr = 0 /\ And4(b.isr, 15) = 0 /\ Quiet(a) /\ b.pw # "halt" THEN "HaltOnlyWakesOnStatus"
      ELSE IF wantOff /\ Bit(a.isr, 3) = 0 /\ (execd \/ b.pc # a.pc) THEN "OffExecutesNothing"
      ELSE IF wantOff /\ Bit(a.isr, 3) = 0 /\ (Bit(b.isr, 0) > Bit(a.isr, 0) \/ Bit(b.isr, 1) > Bit(a.isr, 1)) THEN "OffStopsTimers"
      ELSE "ok"
